@@ -382,6 +382,7 @@ func propC04() *PropSpec {
 			js = append(js, jobsN("css", "VerifCSSZeroAngle", []int{0}, "11 property templates taking <angle> / <time> / <resolution> / <frequency> x their units x 8 spellings of zero x KeepCSS2: the unit is kept (a bare 0 is not a valid angle or time)")...)
 			js = append(js, jobsN("css", "VerifCSSFontFamilyQuoted", []int{0}, "quoted family names (8 CSS-wide keywords, 8 generic families, 5 plain names) x 2 quotes x 5 font-family / font templates: keyword-like names stay quoted")...)
 			js = append(js, jobsN("css", "VerifCSSHslNumbers", []int{0}, "hsl()/hsla() with bare-number saturation / lightness (13 hues x 6 x 6 grid x comma / space syntax): unchanged or the colour of the CSS Color 4 reading")...)
+			js = append(js, jobsN("css", "VerifCSSSelectorCase", rng(1, 2), "n selector parts out of 20 (type, class, id, attribute, pseudo, ::part / ::highlight / :state, SVG camelCase names) joined by 4 combinators: case-sensitive parts byte for byte")...)
 			js = append(js, jobsN("css", "VerifCSSIntegerProp", pick(rng(1, 5), rng(1, 6)), "15 <integer> properties (z-index, order, column-count, columns, orphans, widows, counter-*, grid lines) x sign x n symbolic digits x KeepCSS2: the value stays an <integer> (no exponent) of the same value")...)
 			js = append(js, jobsN("css", "VerifCSSLongNumber", []int{0}, "7 numbers of 17-24 significant digits x 4 units x 9 Precision values x KeepCSS2")...)
 			{
